@@ -262,7 +262,10 @@ where
             State::Parsing => {
                 // next() was previously called, the current record has
                 // already been returned -> start parsing the next one
-                self.increment_record();
+                // (unless next() failed before the record was complete)
+                if self.incomplete_pos.is_none() {
+                    self.increment_record();
+                }
                 self.state = State::Positioned;
             }
             State::Positioned => {
